@@ -98,10 +98,11 @@ DecideQuery(j) ==
            ELSE [d |-> "either"]
 
 (* ---- return values -------------------------------------------------------------- *)
-\* job: [kind |-> "return", t |-> type, v |-> value]
+\* job: [kind |-> "return", t |-> type, v |-> value, st |-> status carried by the return, 0 for none]
 DecideReturn(j) ==
     LET c == IF j.v.k = "null" THEN "ok" ELSE Conforms(j.v, j.t) IN   \* "not found" (null) is always returnable
-    IF c = "ok" THEN [d |-> "send"] ELSE IF c = "bad" THEN [d |-> "reject5xx"] ELSE [d |-> "either"]
+    IF j.st # 0 THEN [d |-> "sendstatus"]      \* `> v :: 201`: the route answers explicitly; the declared type is not applied
+    ELSE IF c = "ok" THEN [d |-> "send"] ELSE IF c = "bad" THEN [d |-> "reject5xx"] ELSE [d |-> "either"]
 
 Decide(j) == CASE j.kind = "input" -> DecideInput(j) [] j.kind = "query" -> DecideQuery(j) [] j.kind = "return" -> DecideReturn(j)
 
